@@ -70,6 +70,12 @@ Theorem rejects_noninteger_size : forall u body sz, Forall colon_free [u; body; 
 Proof. exact rejects_noninteger_size_lemma. Qed.
 Print Assumptions rejects_noninteger_size.
 
+(* in particular a size containing a character other than digits, sign, underscore, white space ("1.5", "x", "1e3") *)
+Theorem rejects_foreign_size : forall u body sz c, Forall colon_free [u; body; sz] ->
+  has_char c sz = true -> int_char c = false -> rejected (join_colon [u; body; sz]).
+Proof. exact rejects_foreign_size_lemma. Qed.
+Print Assumptions rejects_foreign_size.
+
 (* a first field that is not one of weekday, week, day, month, year *)
 Theorem rejects_unknown_unit : forall u body rest, Forall colon_free (u :: body :: rest) ->
   (forall v, v <> Eternity -> u <> unit_name v) -> rejected (join_colon (u :: body :: rest)).
@@ -132,6 +138,8 @@ Proof. vm_compute. reflexivity. Qed.
 Example ex_noninteger_size : py_int "1.5" = None /\ py_int "" = None /\ py_int "1__0" = None /\
   py_int " +1_0 " = Some 10 /\ py_int "-3" = Some (-3).
 Proof. repeat split; vm_compute; reflexivity. Qed.
+Example ex_foreign_size : has_char "." "1.5" = true /\ int_char "." = false.
+Proof. split; reflexivity. Qed.
 Example ex_unknown_unit : (forall v, v <> Eternity -> "years" <> unit_name v) /\
   parse_period "years:2014" = Err EPeriod.
 Proof. split; [intros []; intros; discriminate || congruence|vm_compute; reflexivity]. Qed.
